@@ -329,10 +329,10 @@ def zeroFrom (l : List Nat) (lo : Nat) : List Nat := l.zipIdx.map (fun (v, i) =>
 def outlineStr (hl : List Nat) (level : Nat) : Str :=
   List.intercalate [46] (((hl.take (level + 1)).drop 1).map natToStr)
 
-/-- the heading level both heading handlers compute: int(attrs[outline-level]) clipped to 1..6 -/
+/-- the heading level both heading handlers compute: int(attrs.get(outline-level, 1)) clipped to 1..6 -/
 def headingLevel (attrs : Attrs) : M Nat :=
   match attrs.lookup kOutline with
-  | none => .error .keyError
+  | none => .ok 1
   | some v => match pyInt v with
     | none => .error .valueError
     | some n => .ok (if n > 6 then 6 else if n < 1 then 1 else n)
@@ -443,6 +443,7 @@ def runH (cfg : Cfg) (ctx : Ctx) (h : HName) (q : Str) (attrs : Attrs) (pe pc : 
     keep { st with metatags := st.metatags ++ [.etag nMeta [(aHttpEquiv, sCreator), (aContent, st.data)]], data := [] }
   -- frames, images, pages
   | .s_draw_frame =>
+    let st := purgedata (writedata st)
     keep (if cfg.css then opentag nDiv [(aClass, frameClass attrs), (aStyle, frameStyle attrs)] false st else opentag nDiv [] false st)
   | .e_draw_frame => keepM (closetag nDiv true st)
   | .s_draw_image =>
@@ -607,7 +608,7 @@ def runH (cfg : Cfg) (ctx : Ctx) (h : HName) (q : Str) (attrs : Attrs) (pe pc : 
   | .s_text_s =>
     match pyInt ((attrs.lookup kC).getD sOne) with
     | none => .error .valueError
-    | some n => keep (emitN (.raw .nbsp) n st)
+    | some n => keep (purgedata (emitN (.raw .nbsp) n (writedata st)))
   | .s_text_span => keep (purgedata (opentag nSpan (styleClassAttr cfg sSdash (attrs.lookup kStyleName)) false (writedata st)))
   | .e_text_span => keepM ((closetag nSpan false (writedata st)).map purgedata)
   | .s_text_tab => keep (purgedata (emit (.raw .sp) (writedata st)))
